@@ -22,8 +22,19 @@ pub mod c20;
 
 use crate::out::Ctx;
 
-pub fn dispatch(prop: &str, ctx: &Ctx, _rest: &[String]) -> bool {
+pub fn dispatch(prop: &str, ctx: &'static Ctx, _rest: &[String]) -> bool {
     common::quiet_panics();
+    // checks that drive an async runtime get an observer outside of it (see Ctx::watch_stalls); their
+    // scenarios call ctx.beat() when they start
+    let limit = std::time::Duration::from_secs(120);
+    match prop {
+        "c06" => ctx.watch_stalls("C06:stall:runtime-blocked", limit),
+        "c07" => ctx.watch_stalls("C07:stall:runtime-blocked", limit),
+        "c17" => ctx.watch_stalls("C17:stall:runtime-blocked", limit),
+        "c18" => ctx.watch_stalls("C18:stall:runtime-blocked", limit),
+        "c19" => ctx.watch_stalls("C19:stall:runtime-blocked", limit),
+        _ => {}
+    }
     match prop {
         "c01" => c01::run(ctx),
         "c02" => c02::run(ctx),
